@@ -79,13 +79,18 @@ Definition run := (Z * list Z * list Z)%type.
 Inductive case :=
 | CDedup (l : list blk) (runs : list run).
 
-Definition run_matches (l : list blk) (r : run) : bool :=
+(* kept ids and duplicate ids of the model, computed once per case
+   (fst = map bid (kept l), snd = dups l) *)
+Definition model_view (l : list blk) : list Z * list Z :=
+  let d := dups l in (map bid (filter (fun b => negb (mem (bid b) d)) l), d).
+
+Definition run_matches (mv : list Z * list Z) (r : run) : bool :=
   let '(_, k, d) := r in
-  set_eqb k (map bid (kept l)) && set_eqb d (dups l) && (length d =? length (dups l))%nat.
+  set_eqb k (fst mv) && set_eqb d (snd mv) && (length d =? length (snd mv))%nat.
 
 Definition corr_ok (c : case) : bool :=
   match c with
-  | CDedup l runs => forallb (run_matches l) runs
+  | CDedup l runs => let mv := model_view l in forallb (run_matches mv) runs
   end.
 
 Definition find_blk (l : list blk) (i : Z) : option blk := find (fun b => bid b =? i) l.
@@ -113,7 +118,9 @@ Definition runs_agree (runs : list run) : bool :=
   | (_, k0, d0) :: rs => forallb (fun r => let '(_, k, d) := r in set_eqb k k0 && set_eqb d d0) rs
   end.
 
+(* run_pred looks at a run's kept / hidden ids only through membership, so for runs that
+   agree as sets with the first one it is enough to evaluate it on the first *)
 Definition pred_ok (c : case) : bool :=
   match c with
-  | CDedup l runs => forallb (run_pred l) runs && runs_agree runs
+  | CDedup l runs => match runs with [] => true | r :: _ => run_pred l r end && runs_agree runs
   end.
